@@ -109,7 +109,8 @@ def units_cases(seed=0):
             d = sol.tdgl_data
             mu = d.mu - d.mu.mean()
             K = sol.current_density.to("uA/um").magnitude
-            cur = dict(abs_psi=np.abs(d.psi), js=d.supercurrent, jn=d.normal_current, mu=mu, K=K, A=d.induced_vector_potential)
+            Bfield = sol.field_at_position(np.array([[0.5, 0.2], [-1.0, 0.4]]) * ls, zs=1.0 * ls, vector=True, units="mT", with_units=False)
+            cur = dict(abs_psi=np.abs(d.psi), js=d.supercurrent, jn=d.normal_current, mu=mu, K=K, A=d.induced_vector_potential, field_above_the_film=np.asarray(Bfield))
             n += 1
             key = screening
             if ref is None:
